@@ -24,7 +24,7 @@ import ast
 from typing import Optional
 
 from ..core.astutil import (u, walk_local, call_name, kwarg, methods, parent_map, subst, body_nodoc,
-                            inline_locals, enclosing_stmt)
+                            inline_locals, enclosing_stmt, names_in)
 from ..core.loader import AnchorError, Undecided
 from ..core.report import Ctx
 from .c06 import set_typed, classify_set_use, _norm_sel, _stores, _params, _block, _is_self_attr, _strip_keys
@@ -729,10 +729,15 @@ def _check_inverter(ctx: Ctx, rel: str, fn: ast.FunctionDef, gen_fn: ast.Functio
     if len(prov) != 3:
         raise Undecided(f"{q}: generator result is not unpacked into three names")
     key_prov: dict[str, int] = {}
+    sig_keys: list = []
     for s in fresh_body:
         if isinstance(s, ast.Assign) and isinstance(s.targets[0], ast.Subscript) and _is_self_attr(s.targets[0].value, cache_attr) \
                 and isinstance(s.targets[0].slice, ast.Constant):
             if u(s.value) not in prov:
+                # an entry derived from the matrix itself (not from the generated triple) is a validity signature
+                if A in names_in(s.value) and not (names_in(s.value) & set(prov)):
+                    sig_keys.append(s.targets[0].slice.value)
+                    continue
                 raise Undecided(f"{q}: cache entry {u(s.targets[0].slice)} is not one of the generated arrays")
             key_prov[s.targets[0].slice.value] = prov[u(s.value)]
     cprov: dict[str, int] = {}
@@ -754,8 +759,24 @@ def _check_inverter(ctx: Ctx, rel: str, fn: ast.FunctionDef, gen_fn: ast.Functio
                       f"[{arm} arm] argument {j} of {APPLY} ({app_params[j]}) must be element {j - 1} of the generated triple; "
                       f"'{nm}' carries element {got}", construct=f"[{arm}] arg{j}={nm} <- triple[{got}]",
                       desc=f"[{arm} arm] argument {j} ({app_params[j]}) carries element {got} of the generated triple")
-    ctx.note("history hazard (not decided): the permutation is computed once from the first A_ss and reused for every later call, "
-             "also after a different primary/secondary split or a changed sparsity pattern")
+    # cache validity (added by the coordinator after defect D19): a cached permutation may only be reused for a matrix with
+    # the sparsity pattern it was computed for.  Required: before the arm, a statement that empties the cache under a test that
+    # reads both the cache and the current matrix (comparison of a stored signature with `A`).
+    invalidations = []
+    for iff in [n for n in walk_local(fn) if isinstance(n, ast.If) and n is not arm_if and n.lineno < arm_if.lineno]:
+        reads_cache = any(_is_self_attr(n, cache_attr) for n in ast.walk(iff.test))
+        reads_A = A in names_in(iff.test)
+        clears = any((isinstance(c, ast.Call) and isinstance(c.func, ast.Attribute) and c.func.attr == "clear" and _is_self_attr(c.func.value, cache_attr))
+                     for b in iff.body for c in ast.walk(b)) or any(
+            isinstance(b, ast.Assign) and any(_is_self_attr(t, cache_attr) for t in b.targets) for b in iff.body)
+        if reads_cache and reads_A and clears:
+            invalidations.append(iff)
+    sig_read = all(any(isinstance(n, ast.Subscript) and _is_self_attr(n.value, cache_attr) and isinstance(n.slice, ast.Constant) and n.slice.value == k
+                       for n in ast.walk(iff.test)) for iff in invalidations for k in sig_keys) if invalidations else False
+    ctx.check("R4", bool(invalidations) and bool(sig_keys) and sig_read, rel, q, arm_if,
+              "the cached permutation is reused without checking that it was computed for the current matrix: a second Schur split on the same "
+              "EquationSystem (or a changed sparsity pattern) reuses a stale permutation (IndexError / wrong inverse)",
+              construct=f"{INV}: cached permutation reused without validity check", facts={"signature_keys": sig_keys, "invalidation_tests": [u(i.test)[:120] for i in invalidations]})
 
     # ---- producer roles ----------------------------------------------------------------------------
     gq = GEN
@@ -958,6 +979,9 @@ def _m(name, old, new, rule, control=False, count=1, file=ES):
 
 
 MUTANTS = [
+    dict(name="revert-fix-inverter-cache-validity", file="src/porepy/numerics/ad/equation_system.py",
+         old="            self._secondary_block_permutation.clear()\n", new="            pass\n", rule="R4", control=True),
+
     _m("S-plus", "        S = A_pp - A_ps * inv_A_ss * A_sp\n", "        S = A_pp + A_ps * inv_A_ss * A_sp\n", "R1", control=True),
     _m("rhs-plus", "        rhs_S = b_p - A_ps * inv_A_ss * b_s\n", "        rhs_S = b_p + A_ps * inv_A_ss * b_s\n", "R1"),
     _m("rhs-without-inverse", "        rhs_S = b_p - A_ps * inv_A_ss * b_s\n", "        rhs_S = b_p - A_ps * b_s\n", "R1"),
